@@ -17,7 +17,9 @@ PROPS = {
                  "on free loopback ports (the gRPC one with main.go's newGrpcProxy options), wait W in [200 ms, 1.5 s], 0-3 pieces of in-flight work per listener (HTTP and HTTPS requests, TCP and SNI tunnels incl. SNI "
                  "tunnels on the https+tcp+sni listener, gRPC unary calls and streams) whose upstream takes d in [0, 0.5 W] or [2 W, 4 W] or never finishes, and a shutdown moment drawn relative to the start of the work. "
                  "Oracle: (1) a connect attempted min(W/2, 300 ms) after proxy.Shutdown(W) was called is refused on every listener; (2) every piece of work with d <= 0.5 W completes normally (full HTTP response, "
-                 "tunnel reply, OK status); (3) proxy.Shutdown(W) returns within W + 2 s whatever is still open. Non-trivial = mix with >=2 listener kinds and at least one never-ending piece of work."),
+                 "tunnel reply, OK status); (3) proxy.Shutdown(W) returns within W + 2 s whatever is still open. Non-trivial = mix with >=2 listener kinds and at least one never-ending piece of work. Dynamic form: main.go's startServers with an http and a proto=tcp-dynamic listener (refresh 20-100 ms) and proxy.shutdownwait=W; the tcp route of the dynamic port is removed just before / long before / not at all, "
+                 "then proxy.Shutdown(W): the http listener refuses connections at once and Shutdown returns within W. Binary form also: SIGHUP before the SIGTERM (ignored), a second SIGTERM/SIGINT/SIGHUP during the drain, "
+                 "a long deregister grace period with a request arriving inside it."),
         "technique": "rapid-generated listener mixes and in-flight workloads on real sockets with one-sided timing bounds",
         "level_text": "Generated mixes of real listeners with real in-flight requests, tunnels and gRPC calls are shut down through the production entry point; completion of short work, refusal of new connections and the bound on shutdown time are asserted with wide slack. Exploration only.",
         "level_note": "Durations are drawn away from the wait (<= 0.5 W or >= 2 W) so that scheduling noise cannot flip a verdict; slack on the bound is 2 s; the signal handler and deregistration in main() are not part of this check.",
@@ -327,7 +329,7 @@ PROPS = {
     },
     "C20": {
         "units": [
-            {"pkg": "./c20", "run": "TestC20LogLine|TestC20EachField|TestC20Uint16|TestC20I32toa|TestC20UUID|TestC20STS|TestC20ProxyLogging|TestC20ProxyFinalStatus", "shards": 4, "shards_thorough": 16, "timeout": 600},
+            {"pkg": "./c20", "run": "TestC20LogLine|TestC20EachField|TestC20Uint16|TestC20I32toa|TestC20UUID|TestC20STS|TestC20ProxyLogging|TestC20ProxyFinalStatus|TestC20LogTargetFaults", "shards": 4, "shards_thorough": 16, "timeout": 600},
             {"pkg": "./c20", "run": "TestC20ConcurrentLogging", "race": True, "shards": 2, "shards_thorough": 4, "timeout": 600},
         ],
         "fuzz": [],
